@@ -371,6 +371,24 @@ theorem C01_running_bounded_with_step_sends (cfg : Cfg) (hwf : cfg.WF) (pol : Po
   have h := key acts _ (init_runInv_fresh cfg hwf False st0 now start timeout)
   exact ⟨⟨h.nodup, (h.bounded hwf).1⟩, (h.bounded hwf).2⟩
 
+/-- **The slot choice never raises, whatever the table**: `C01_allocator_total` without its hypothesis.
+`id_candidates[0]` fails only if every id below `num_workers` is taken, and then the table has at least
+`num_workers` rows — duplicates and out-of-range ids included — so `has_space` is false. -/
+theorem C01_allocator_total_any_table (att : Attempt) (step : Nat) (ss : StepState) (nw : Nat) (now : Int) :
+    Cmd.crash ∉ (addOrEnqueue att step ss nw now).2 :=
+  addOrEnqueue_no_crash_any att step ss nw now
+
+/-- hence the rewind at the start of a run (or of a replay) raises nothing from whatever state -/
+theorem C01_rewind_never_raises (cfg : Cfg) (st : State) (now : Int) : Cmd.crash ∉ (rewind cfg st now).2 :=
+  rewind_no_crash_any cfg st now
+
+/-- non-vacuity: a table with a duplicated and an out-of-range id and a free slot: slot 0 is picked -/
+example :
+    let ip (w : Nat) : InProg :=
+      { ev := C01.exEv w, wid := w, snapEvents := [], snapWaiters := [], attempts := 0, firstAt := 0 }
+    ((addOrEnqueue { ev := C01.exEv 9 } 1 { inProg := [ip 1, ip 1, ip 7] } 4 0).2.head?) =
+      some (.runWorker 1 (C01.exEv 9) 0) := by decide
+
 /-- non-vacuity: a state no run leaves behind — three rows on a 2-worker step, two of them on slot 1, one
 on slot 7 — is repaired by the rewind: two workers restarted on slots 0 and 1, one event back in the queue -/
 def C01.corruptState : State :=
